@@ -6,9 +6,9 @@ ID = "C11"
 LEVEL = "model_checking"
 RULE = ("operations {runW (new WNTRSimulator), runWs (WNTRSimulator object of the previous run reused), runE (EpanetSimulator), reset (reset_initial_values), copy (deepcopy, continue on the "
         "copy), reload (write_json/read_json, continue on the reloaded model)}; ALL histories of length <= 3 (quick) / <= 4 "
-        "(thorough) over 14 models carrying: status time controls on a pipe, a pump and a valve; a valve setting control; a pump "
+        "(thorough) over 16 models carrying: status time controls on a pipe, a pump and a valve; a valve setting control; a pump "
         "speed control; tank-level controls; a leak window; a rule with ELSE; PDD; an initially CLOSED pump and an initially "
-        "CLOSED / OPEN valve built through the API (no reset after building); a volume-curve tank.  A state is a history prefix "
+        "CLOSED / OPEN valve built through the API (no reset after building); a volume-curve tank; a head pump; six of them additionally with the operation edit (ONE definition edit through the public API followed by reset_initial_values(): pipe diameter, pump curve points, pattern multipliers, volume curve points, junction required pressure, leak replaced) after which the model must behave like one built with the edited value from scratch.  A state is a history prefix "
         "(runtime state of live objects cannot be canonicalised, so prefixes are not merged); every transition replays the history "
         "on a fresh real model.  invariant in every state: to_dict(wn) (JSON-normalised) equals the initial dictionary.  oracles: "
         "runW on a fresh state (initial, after reset, reloaded, or a copy of one) equals the first fresh runW of that model (1e-9); "
@@ -76,15 +76,65 @@ def models():
     s["links"][0] = PP("p1", "R", "J1", 15000.0)
     s["controls"] = [{"kind": "time", "t": 2 * H, "link": "p1", "attr": "base_speed", "value": 0.8}]
     M["pump_speed_control"] = s
+    s = base(); s["nodes"][0]["head"] = 10.0
+    s["links"][0] = HP("p1", "R", "J1", [[0.0, 60.0], [0.05, 50.0], [0.1, 20.0]])
+    M["hpump_curve"] = s
+    M["pattern"] = base()
     return M
+
+
+def _edit_spec(s, name):
+    """the edited model as a spec (what a user would build from scratch)"""
+    s = clone(s)
+    if name == "pipe_status":
+        link(s, "p4")["D"] = 0.3
+    elif name == "hpump_curve":
+        link(s, "p1")["curve"] = [[0.0, 70.0], [0.04, 55.0], [0.08, 20.0]]
+    elif name == "pattern":
+        s["patterns"]["P1"] = [0.5, 2.0, 1.0, 1.5]
+    elif name == "vcurve":
+        node(s, "T")["vcurve"] = [[0.0, 0.0], [3.0, 120.0], [7.0, 600.0]]
+    elif name == "pdd":
+        node(s, "J2")["preq"] = 12.0
+    elif name == "leak":
+        node(s, "J2")["leak"] = {"area": 9e-4, "cd": 0.6, "start": 2 * H, "end": 4 * H}
+    else:
+        raise KeyError(name)
+    return s
+
+
+def _edit_api(wn, name):
+    """the same edit through the public API on a model that may have been simulated before"""
+    if name == "pipe_status":
+        wn.get_link("p4").diameter = 0.3
+    elif name == "hpump_curve":
+        wn.get_curve(wn.get_link("p1").pump_curve_name).points[:] = [(0.0, 70.0), (0.04, 55.0), (0.08, 20.0)]      # in place
+    elif name == "pattern":
+        wn.get_pattern("P1").multipliers = [0.5, 2.0, 1.0, 1.5]
+    elif name == "vcurve":
+        wn.get_curve(wn.get_node("T").vol_curve_name).points = [(0.0, 0.0), (3.0, 120.0), (7.0, 600.0)]
+    elif name == "pdd":
+        wn.get_node("J2").required_pressure = 12.0
+    elif name == "leak":
+        j = wn.get_node("J2")
+        j.remove_leak(wn)
+        j.add_leak(wn, 9e-4, 0.6, 2 * H, 4 * H)
+    else:
+        raise KeyError(name)
+
+
+EDITABLE = ("pipe_status", "hpump_curve", "pattern", "vcurve", "pdd", "leak")
 
 
 def cases(tier):
     depth = 3 if tier == "quick" else 4
     out = []
     for name in models():
+        ops = OPS + (["edit"] if name in EDITABLE else [])
         for n in range(1, depth + 1):
-            for h in itertools.product(OPS, repeat=n):
+            for h in itertools.product(ops, repeat=n):
+                if h.count("edit") > 1 or (h.count("edit") == 1 and (h[-1] == "edit" or h.count("copy") or h.count("reload") or h.count("runE") > 1)):
+                    continue        # one edit per history, judged by the runs that follow it; kept small: no copy / reload next to an edit
                 # histories that never simulate observe nothing new beyond their prefixes: keep those ending in a run,
                 # and every history of full depth (the invariant is evaluated after every step anyway)
                 if h[-1] not in ("runW", "runWs", "runE") and n < depth:
@@ -228,6 +278,18 @@ def run_case(c):
                 m = tables_equal(r, refE, 1e-6, 1e-5)
                 if m:
                     viol.append({"key": "epanet-run-differs:%s" % tag, "what": "%s: EpanetSimulator result differs from its result on the initial model: %s" % (pre, m)})
+            elif op == "edit":
+                # ONE definition edit through the public API; from here on the model must behave like one built with the
+                # edited value from scratch (definition, WNTR results on fresh states, EPANET results)
+                _edit_api(wn, c["model"])
+                s = _edit_spec(s, c["model"])
+                d0 = normd(build(s))
+                refW = run_w(build(s), s)
+                refW = None if refW.error else refW
+                refE = None
+                tag = c["model"] + ":edited"
+                wn.reset_initial_values()       # the documented way to simulate an edited model again from time 0
+                fresh = True
             elif op == "reset":
                 wn.reset_initial_values()
                 fresh = True
@@ -255,6 +317,9 @@ def run_case(c):
             viol.append({"key": "definition-changed:%s:%s" % (op, cls), "what": "%s: to_dict differs from the initial dictionary at %s: %r -> %r" % (pre, r[0], r[1], r[2])})
             break
     nruns = sum(1 for o in c["ops"] if o in ("runW", "runWs", "runE"))
+    if "edit" in c["ops"]:
+        i = c["ops"].index("edit")
+        nruns = 2 if any(o.startswith("run") for o in c["ops"][:i]) and any(o.startswith("run") for o in c["ops"][i:]) else 0
     seen, out = set(), []
     for v in viol:
         if v["key"] not in seen:
